@@ -30,7 +30,9 @@ func DefaultGenesisState() GenesisState {
 // error for any failed validation criteria.
 func ValidateGenesis(data GenesisState) error {
 	for _, account := range data.Accounts {
-		if account.GetPubKey().PubKey() == nil {
+		// accounts that never signed (module accounts, accounts created by receiving
+		// coins) have no public key; a key that is present must be usable
+		if pk := account.GetPubKey(); pk != nil && pk.PubKey() == nil {
 			return fmt.Errorf("PubKey should never be nil")
 		}
 	}
